@@ -86,6 +86,7 @@ Proof.
       rewrite <- Ha. rewrite set_nth_same. destruct st; reflexivity.
   - (* constant *)
     destruct (eval code_ops (pvar names st pos (negb last)) e []) as [[v c]|]; [|discriminate].
+    destruct (last && match v with VFailed => true | _ => false end); [discriminate|].
     destruct (value_identical v (nth s (s_sym st) VUnknown)) eqn:E; [|discriminate].
     inversion H; subst; clear H. apply value_identical_eq in E. rewrite E.
     rewrite set_nth_same. destruct st; reflexivity.
@@ -193,6 +194,7 @@ Proof.
       * right. eauto. * apply Hl, Hs0.
     + rewrite nth_set_nth_other by exact Hne. apply Hl, Hs0.
   - destruct (eval code_ops (pvar names st pos (negb last)) e []) as [[v c]|]; [|discriminate].
+    destruct (last && match v with VFailed => true | _ => false end); [discriminate|].
     inversion H; subst; clear H. intros s0 Hs0. cbn [s_sym].
     assert (s0 <> s) by (intro; subst; eapply Hd; eauto).
     rewrite nth_set_nth_other by assumption. apply Hl, Hs0.
